@@ -2,12 +2,22 @@ import argparse
 import sys
 
 
+def _open_input(path: str):
+    """Open FILE the way stdin is read: UTF-8 and no newline translation ("-" is stdin)."""
+    if path == "-":
+        return sys.stdin
+    try:
+        return open(path, "r", encoding="utf-8", newline="")
+    except OSError as exc:
+        raise argparse.ArgumentTypeError(f"can't open '{path}': {exc}") from exc
+
+
 def with_file_argument(p: argparse.ArgumentParser) -> None:
     """Centralize file-input wiring so CLI commands behave consistently."""
     p.add_argument(
         "-f",
         "--file",
-        type=argparse.FileType("r", encoding="utf-8"),
+        type=_open_input,
         metavar="FILE",
         default=sys.stdin,
         help="Read the Nix input from FILE instead of stdin",
